@@ -23,9 +23,9 @@ func init() {
 var errExceptions = map[string]string{
 	// struct -> view helpers: FromFields/Deserialize over values that the struct type already constrains; a failure
 	// is impossible for in-domain values and the helper has no error result (ssz.descriptor/codec.scope check the premises).
-	"*.View->FromFields":   "struct->view constructor over in-domain fields (shape agreement is checked by ssz.descriptor / view.build)",
-	"*.View->Deserialize":  "struct->view constructor decoding the value's own bytes (scope checked by codec.scope)",
-	"*.View->ViewFromBacking": "struct->view constructor from a single chunk",
+	"*.View->FromFields":         "struct->view constructor over in-domain fields (shape agreement is checked by ssz.descriptor / view.build)",
+	"*.View->Deserialize":        "struct->view constructor decoding the value's own bytes (scope checked by codec.scope)",
+	"*.View->ViewFromBacking":    "struct->view constructor from a single chunk",
 	"ViewPubkey->Deserialize":    "decodes a [48]byte array with scope 48 (codec.scope)",
 	"ViewSignature->Deserialize": "decodes a [96]byte array with scope 96 (codec.scope)",
 	// EpochStartSlot only errors on uint64 overflow of epoch*SLOTS_PER_EPOCH; callers pass epochs of known checkpoints
